@@ -258,6 +258,8 @@ def check_model_premises(rep: Rep, repo: Repo, pre: str = "PREMISE-", node_field
     from .rules_premise import check_decorators, check_model_state_untouched
     check_decorators(rep, repo, pre)
     check_model_state_untouched(rep, repo, pre)
+    from .rules_premise import check_alias_writeback
+    check_alias_writeback(rep, repo, pre)
     if purity:
         check_metric_purity(rep, repo, pre)
 
